@@ -1,5 +1,9 @@
 import PV.Model.Sexp
 import PV.Model.Pickle
+import PV.Model.PersistentHashTable
+import PV.Model.PersistentHashSep
+import PV.Generated.Traversal
+import PV.Generated.PersistentHash
 /- Driver operations for the pickling / hash-cache / persistent-digest model (C17). -/
 namespace PV.Driver
 open PV PV.Pickle
@@ -71,6 +75,27 @@ def handlePickle : Sexp → Option Sexp
       | .error .foreign => some (Sexp.mk "err" [.atom "Foreign"])
       | .error _ => some (Sexp.mk "err" [.atom "Unsupported"])
     | none => some (Sexp.mk "bad-op" [Sexp.str "c17-digest"])
+  | .list [.atom "c17-digest-table", e] =>
+    -- T-gen: the table interpreter on the tables regenerated from the working tree
+    match Expr.ofSexp? e with
+    | some e =>
+      match c17DigestT Generated.c04Classes Generated.c04WalkTable Generated.c17HashTable e with
+      | .ok xs => some (.list (xs.map Sexp.str))
+      | .error .foreign => some (Sexp.mk "err" [.atom "Foreign"])
+      | .error _ => some (Sexp.mk "err" [.atom "Unsupported"])
+    | none => some (Sexp.mk "bad-op" [Sexp.str "c17-digest-table"])
+  | .list [.atom "c17-inj", a, b] =>
+    -- injectivity: same chunk sequence? same concatenation? same tree after erasure? separable
+    -- under a common rank discipline?
+    match Expr.ofSexp? a, Expr.ofSexp? b with
+    | some a, some b =>
+      match digest a, digest b with
+      | .ok la, .ok lb =>
+        some (Sexp.mk "inj" [Sexp.ofBool (la == lb),
+          Sexp.ofBool (c17Flat String.toList la == c17Flat String.toList lb),
+          Sexp.ofBool (Expr.beq (c17Erase a) (c17Erase b)), Sexp.ofBool (c17CommonSep a b)])
+      | _, _ => some (Sexp.mk "noclaim" [])
+    | _, _ => some (Sexp.mk "bad-op" [Sexp.str "c17-inj"])
   | .list [.atom "c17-hist", s1, s2, .list src, .list ops1, .list ops2] =>
     match s1.nat?, s2.nat?, objOfSexpL? src, ops1.mapM opOfSexp?, ops2.mapM opOfSexp? with
     | some s1, some s2, some src, some ops1, some ops2 =>
